@@ -15,3 +15,6 @@ open StarsimModel.C10
 #print axioms C10_flow_partial
 #print axioms C10_balance
 #print axioms C10_flow_counterexample
+#print axioms C10_aligned_from
+#print axioms C10_ageing
+#print axioms C10_init
